@@ -179,8 +179,30 @@ func c19Required(s c19Spec) (cons, prods, ops, auths []string) {
 	return
 }
 
+// c19Defaults: a description that never mentions application/json, validated on
+// an API that keeps its built-in JSON consumer and producer: those registrations
+// are superfluous and have to be reported like any other.
+func c19Defaults() {
+	s := c19Spec{consumes: []string{"text/plain"}, produces: []string{"text/plain"}, ops: []string{"GET /a"}}
+	api := NewAPI(c19Doc(s))
+	api.RegisterConsumer("text/plain", runtime.ConsumerFunc(func(io.Reader, interface{}) error { return nil }))
+	api.RegisterProducer("text/plain", runtime.ProducerFunc(func(io.Writer, interface{}) error { return nil }))
+	api.RegisterOperation("GET", "/a", runtime.OperationHandlerFunc(func(interface{}) (interface{}, error) { return nil, nil }))
+	err := api.Validate()
+	zv.Reach("built-in-defaults")
+	zv.Assert("superfluous-built-in-registration-is-reported", err != nil)
+	vf, ok := err.(*errors.APIVerificationFailed)
+	if ok {
+		zv.Assert("built-in-registration-reported-by-name", vf.Section == "consumes" && len(vf.MissingSpecification) == 1 && vf.MissingSpecification[0] == "application/json")
+	}
+}
+
 // VerifC19Validate: exact registrations, each single omission, each single addition.
 func VerifC19Validate() {
+	if zv.Choose("built-in-defaults", 2) == 1 {
+		c19Defaults()
+		return
+	}
 	si := zv.Choose("spec", len(c19Specs))
 	s := c19Specs[si]
 	doc := zv.Cached("c19-"+string(rune('0'+si)), func() interface{} { return c19Doc(s) }).(*loads.Document)
